@@ -149,6 +149,13 @@ fn line_marker(line: &str, trace: &Value) -> Option<String> {
     {
         return Some(marker.to_string());
     }
+    // the one very long printed line of a "big output" case
+    let big = &trace["big_output"];
+    if let (Some(l), Some(expected)) = (big["line"].as_str(), big["expected"].as_str())
+        && line.trim() == l
+    {
+        return Some(expected.to_string());
+    }
     None
 }
 
@@ -276,6 +283,9 @@ pub fn exec_trace(trace: &Value, res: &mut ExecResult) -> u64 {
     if !trace["user_module"].is_null() {
         res.bump("probe.user_module_imported");
     }
+    if !trace["big_output"].is_null() {
+        res.bump("probe.big_output_line");
+    }
     let has_file = channel == "file" || channel == "split";
     if has_file {
         match env_fault {
@@ -350,6 +360,14 @@ pub fn exec_trace(trace: &Value, res: &mut ExecResult) -> u64 {
         );
         return obs.0;
     }
+    // markers can be very long (big-output cases): abbreviated in messages
+    let sm = |m: &str| -> String {
+        if m.len() > 80 {
+            format!("{}…({} bytes)", &m[..40], m.len())
+        } else {
+            m.to_string()
+        }
+    };
     let describe = || -> String {
         format!(
             "args={:?} file={:?} exit={:?} stdout={:?} stderr={:?}",
@@ -403,13 +421,13 @@ pub fn exec_trace(trace: &Value, res: &mut ExecResult) -> u64 {
         let mut at = 0usize;
         for m in &all {
             if count(m) != 1 {
-                res.fail("stdout-markers", format!("marker {m} appears {} times on standard output (expected once): {}", count(m), describe()));
+                res.fail("stdout-markers", format!("marker {} appears {} times on standard output (expected once): {}", sm(m), count(m), describe()));
                 return obs.0;
             }
             match stdout_lines[at..].iter().position(|l| l == m) {
                 Some(p) => at += p + 1,
                 None => {
-                    res.fail("stdout-markers", format!("marker {m} is out of order on standard output: {}", describe()));
+                    res.fail("stdout-markers", format!("marker {} is out of order on standard output: {}", sm(m), describe()));
                     return obs.0;
                 }
             }
@@ -451,7 +469,7 @@ pub fn exec_trace(trace: &Value, res: &mut ExecResult) -> u64 {
             let allowed: Vec<String> = if env_fault == "failing-init" { vec![] } else if env_fault == "corrupt-config" { vec![] } else { init_markers.clone() };
             for m in file_markers.iter().chain(e_markers.iter()).chain(init_markers.iter()) {
                 if count(m) > 0 && !allowed.contains(m) {
-                    res.fail("stdout-markers", format!("marker {m} printed although the run failed with environment fault {env_fault}: {}", describe()));
+                    res.fail("stdout-markers", format!("marker {} printed although the run failed with environment fault {env_fault}: {}", sm(m), describe()));
                     return obs.0;
                 }
             }
@@ -466,7 +484,7 @@ pub fn exec_trace(trace: &Value, res: &mut ExecResult) -> u64 {
                 if let Some(m) = line_marker(l, trace) {
                     let forbidden = i > idx || static_stage;
                     if forbidden && count(&m) > 0 {
-                        res.fail("stdout-markers", format!("marker {m} (line {i}) was printed although line {idx} fails at stage {stage}{}: {}", if static_stage { " and the input must be rejected as a whole" } else { "" }, describe()));
+                        res.fail("stdout-markers", format!("marker {} (line {i}) was printed although line {idx} fails at stage {stage}{}: {}", sm(&m), if static_stage { " and the input must be rejected as a whole" } else { "" }, describe()));
                         return obs.0;
                     }
                 }
@@ -475,7 +493,7 @@ pub fn exec_trace(trace: &Value, res: &mut ExecResult) -> u64 {
                 // the -e block must not have run at all
                 for m in &e_markers {
                     if count(m) > 0 {
-                        res.fail("stdout-markers", format!("marker {m} of the -e block printed although the file failed first: {}", describe()));
+                        res.fail("stdout-markers", format!("marker {} of the -e block printed although the file failed first: {}", sm(m), describe()));
                         return obs.0;
                     }
                 }
@@ -483,7 +501,7 @@ pub fn exec_trace(trace: &Value, res: &mut ExecResult) -> u64 {
                 // the file succeeded before: its markers must be there
                 for m in &file_markers {
                     if count(m) != 1 {
-                        res.fail("stdout-markers", format!("marker {m} of the successful file input is missing although only the later -e block fails: {}", describe()));
+                        res.fail("stdout-markers", format!("marker {} of the successful file input is missing although only the later -e block fails: {}", sm(m), describe()));
                         return obs.0;
                     }
                 }
@@ -683,6 +701,29 @@ fn gen_trace(w: &mut SessWorker, rng: &mut Rng, res: &mut ExecResult) -> Option<
         }
         w.importer.add_module(&name, &user_module_src);
         user_module = json!({"name": name, "path": format!("cfg/numbat/modules/user/mod{k}.nbt"), "marker": marker});
+    }
+
+    // big output: one printed line of 12-48 KiB (longer than any stdio buffer), built by repeated
+    // string interpolation; it is a marker like any other (exactly once, in order, absent when
+    // its input is rejected) but only shows what happens when a lot is written
+    let mut big_output = Value::Null;
+    if !no_prelude && rng.chance(0.15) {
+        let k = rng.range(1, 99);
+        let reps = rng.range(3, 12) as usize;
+        let mut block: Vec<String> = vec![format!("let vbig{k}a = \"xxxxxxxxxxxxxxxx\"")];
+        for (prev, cur) in [("a", "b"), ("b", "c"), ("c", "d"), ("d", "e")] {
+            block.push(format!("let vbig{k}{cur} = \"{{vbig{k}{prev}}}{{vbig{k}{prev}}}{{vbig{k}{prev}}}{{vbig{k}{prev}}}\""));
+        }
+        let body: String = (0..reps).map(|_| format!("{{vbig{k}e}}")).collect();
+        let line = format!("print(\"mkbig-{k}-{body}-end\")");
+        block.push(line.clone());
+        let expected = format!("mkbig-{k}-{}-end", "x".repeat(4096 * reps));
+        let positions: Vec<usize> = (0..=lines.len()).filter(|i| *i == 0 || !lines[*i - 1].starts_with('@')).collect();
+        let at = *rng.pick(&positions);
+        for (i, l) in block.into_iter().enumerate() {
+            lines.insert(at + i, l);
+        }
+        big_output = json!({"line": line, "expected": expected});
     }
 
     // blank lines (an empty -e argument / an empty line in the file)
@@ -892,6 +933,7 @@ fn gen_trace(w: &mut SessWorker, rng: &mut Rng, res: &mut ExecResult) -> Option<
         "check_equivalence": rng.chance(0.5),
         "file_first": rng.chance(0.5),
         "e_groups": e_groups,
+        "big_output": big_output,
         "user_module": if user_module.is_null() { Value::Null } else {
             let mut um = user_module.clone();
             um["source"] = json!(user_module_src);
